@@ -44,9 +44,51 @@ class Replay:
         sym = self.sym
         in_sum_loop: Optional[ast.For] = None
         loop_iters: Dict[int, Any] = {}
+        frames: List[Tuple] = []     # (function, saved local env, scope, returned value) per inlined helper
+        cur_fn = self.fn
         for i, ev in enumerate(self.path.events):
             self.nfacts_before.append(len(self.facts))
             self.env_before.append(dict(sym.env))
+            if ev.kind == "enter":
+                g, call = ev.data, ev.node
+                bound_self = bool(g.cls is not None and not g.is_static and g.params and g.params[0] in ("self", "cls"))
+                same_self = bound_self and isinstance(call.func, ast.Attribute) and isinstance(call.func.value, ast.Name) \
+                    and call.func.value.id in ("self", "cls")
+                new_env: Dict[str, Any] = {}
+                if same_self:
+                    new_env = {k: v for k, v in sym.env.items() if k.startswith("self.") or k.startswith("cls.")}
+                from .calls import arg_for
+                for pn in g.params:
+                    if bound_self and pn == g.params[0]:
+                        continue
+                    a = arg_for(call, g, pn)
+                    if a is None:
+                        a = _default_of(g, pn)
+                    if a is not None:
+                        new_env[pn] = sym.lin(a)
+                frames.append((cur_fn, {k: v for k, v in sym.env.items()}, sym.scope, same_self))
+                sym.env = new_env
+                sym.scope = "%s#%d:" % (g.name, len(frames))
+                sym.set_function(g)
+                cur_fn = g
+                continue
+            if ev.kind == "iret":
+                if ev.node.value is not None:
+                    sym.call_values[("ret", len(frames))] = sym.lin(ev.node.value)
+                continue
+            if ev.kind == "exit":
+                if frames:
+                    outer_fn, outer_env, outer_scope, same_self = frames.pop()
+                    ret = sym.call_values.pop(("ret", len(frames) + 1), None)
+                    updates = {k: v for k, v in sym.env.items() if same_self and (k.startswith("self.") or k.startswith("cls."))}
+                    sym.env = outer_env
+                    sym.env.update(updates)
+                    sym.scope = outer_scope
+                    sym.set_function(outer_fn)
+                    cur_fn = outer_fn
+                    if ret is not None:
+                        sym.call_values[id(ev.node)] = ret
+                continue
             if ev.kind == "iter":
                 idiom = sum_loop_idiom(ev.node)
                 if idiom is not None:
@@ -108,6 +150,19 @@ class Replay:
         s = self.sym.copy()
         s.env = dict(self.env_before[i])
         return s
+
+
+def _default_of(g: FuncInfo, pname: str) -> Optional[ast.expr]:
+    a = g.node.args
+    pos = a.posonlyargs + a.args
+    names = [x.arg for x in pos]
+    if pname in names:
+        k = names.index(pname) - (len(pos) - len(a.defaults))
+        return a.defaults[k] if k >= 0 else None
+    for x, d in zip(a.kwonlyargs, a.kw_defaults):
+        if x.arg == pname:
+            return d
+    return None
 
 
 def make_inliner(prog: Program, fn: FuncInfo, depth: int = 0):
